@@ -70,7 +70,7 @@ Record actor := mkActor {
 Inductive slot := SNone | SOpen | SVal (v : list nat) | SCancelled.
 Inductive okind :=
   | XSend | XCall | XPing | XForce | XStop | XRestart | XHalt | XAwait
-  | XTick | XCtl | XBcast | XCopy | XJoin | XConsume | XOther.
+  | XTick | XCtl | XBcast | XCopy | XJoin | XConsume | XReg | XOther.
 
 Record op := mkOp {
   op_k : okind;
@@ -81,7 +81,8 @@ Record op := mkOp {
   op_w : bool;                   (* submitted on the waiting path *)
   op_htx : nat;                  (* strong references the pending operation itself holds *)
   op_hftx : nat;
-  op_timer : option nat          (* the submitting timer, for ticks *)
+  op_timer : option nat;         (* the submitting timer, for ticks *)
+  op_reg : option (regk * nat)   (* registry operation: which one, on which service type *)
 }.
 
 Inductive jstate := JNew | JTaken | JEmpty.
@@ -92,7 +93,9 @@ Record sys := mkSys {
   ops : map op;
   now : nat;
   joins : map (aid * jstate);
-  reg : map aid                  (* service registry: type -> registered instance *)
+  reg : map aid;                 (* service registry: type -> registered instance *)
+  rlock : bool;                  (* the registry's write lock is held across an await (debug-build ping) *)
+  rpend : nat                    (* registry operations begun and not yet returned *)
 }.
 
 (** explicit setters (generated by tools/gen_setters.py, pasted) *)
@@ -114,21 +117,24 @@ Definition set_a_sended v (r : actor) : actor := {| a_cfg := a_cfg r; a_mb := a_
 Definition set_a_task v (r : actor) : actor := {| a_cfg := a_cfg r; a_mb := a_mb r; a_phase := a_phase r; a_state := a_state r; a_inc := a_inc r; a_tx := a_tx r; a_ftx := a_ftx r; a_inflight := a_inflight r; a_notif := a_notif r; a_timers := a_timers r; a_children := a_children r; a_crashing := a_crashing r; a_exit := a_exit r; a_next := a_next r; a_sended := a_sended r; a_task := v; a_bcur := a_bcur r; a_sleep := a_sleep r |}.
 Definition set_a_bcur v (r : actor) : actor := {| a_cfg := a_cfg r; a_mb := a_mb r; a_phase := a_phase r; a_state := a_state r; a_inc := a_inc r; a_tx := a_tx r; a_ftx := a_ftx r; a_inflight := a_inflight r; a_notif := a_notif r; a_timers := a_timers r; a_children := a_children r; a_crashing := a_crashing r; a_exit := a_exit r; a_next := a_next r; a_sended := a_sended r; a_task := a_task r; a_bcur := v; a_sleep := a_sleep r |}.
 Definition set_a_sleep v (r : actor) : actor := {| a_cfg := a_cfg r; a_mb := a_mb r; a_phase := a_phase r; a_state := a_state r; a_inc := a_inc r; a_tx := a_tx r; a_ftx := a_ftx r; a_inflight := a_inflight r; a_notif := a_notif r; a_timers := a_timers r; a_children := a_children r; a_crashing := a_crashing r; a_exit := a_exit r; a_next := a_next r; a_sended := a_sended r; a_task := a_task r; a_bcur := a_bcur r; a_sleep := v |}.
-Definition set_op_k v (r : op) : op := {| op_k := v; op_a := op_a r; op_imm := op_imm r; op_slot := op_slot r; op_done := op_done r; op_w := op_w r; op_htx := op_htx r; op_hftx := op_hftx r; op_timer := op_timer r |}.
-Definition set_op_a v (r : op) : op := {| op_k := op_k r; op_a := v; op_imm := op_imm r; op_slot := op_slot r; op_done := op_done r; op_w := op_w r; op_htx := op_htx r; op_hftx := op_hftx r; op_timer := op_timer r |}.
-Definition set_op_imm v (r : op) : op := {| op_k := op_k r; op_a := op_a r; op_imm := v; op_slot := op_slot r; op_done := op_done r; op_w := op_w r; op_htx := op_htx r; op_hftx := op_hftx r; op_timer := op_timer r |}.
-Definition set_op_slot v (r : op) : op := {| op_k := op_k r; op_a := op_a r; op_imm := op_imm r; op_slot := v; op_done := op_done r; op_w := op_w r; op_htx := op_htx r; op_hftx := op_hftx r; op_timer := op_timer r |}.
-Definition set_op_done v (r : op) : op := {| op_k := op_k r; op_a := op_a r; op_imm := op_imm r; op_slot := op_slot r; op_done := v; op_w := op_w r; op_htx := op_htx r; op_hftx := op_hftx r; op_timer := op_timer r |}.
-Definition set_op_w v (r : op) : op := {| op_k := op_k r; op_a := op_a r; op_imm := op_imm r; op_slot := op_slot r; op_done := op_done r; op_w := v; op_htx := op_htx r; op_hftx := op_hftx r; op_timer := op_timer r |}.
-Definition set_op_htx v (r : op) : op := {| op_k := op_k r; op_a := op_a r; op_imm := op_imm r; op_slot := op_slot r; op_done := op_done r; op_w := op_w r; op_htx := v; op_hftx := op_hftx r; op_timer := op_timer r |}.
-Definition set_op_hftx v (r : op) : op := {| op_k := op_k r; op_a := op_a r; op_imm := op_imm r; op_slot := op_slot r; op_done := op_done r; op_w := op_w r; op_htx := op_htx r; op_hftx := v; op_timer := op_timer r |}.
-Definition set_op_timer v (r : op) : op := {| op_k := op_k r; op_a := op_a r; op_imm := op_imm r; op_slot := op_slot r; op_done := op_done r; op_w := op_w r; op_htx := op_htx r; op_hftx := op_hftx r; op_timer := v |}.
-Definition set_actors v (r : sys) : sys := {| actors := v; handles := handles r; ops := ops r; now := now r; joins := joins r; reg := reg r |}.
-Definition set_handles v (r : sys) : sys := {| actors := actors r; handles := v; ops := ops r; now := now r; joins := joins r; reg := reg r |}.
-Definition set_ops v (r : sys) : sys := {| actors := actors r; handles := handles r; ops := v; now := now r; joins := joins r; reg := reg r |}.
-Definition set_now v (r : sys) : sys := {| actors := actors r; handles := handles r; ops := ops r; now := v; joins := joins r; reg := reg r |}.
-Definition set_joins v (r : sys) : sys := {| actors := actors r; handles := handles r; ops := ops r; now := now r; joins := v; reg := reg r |}.
-Definition set_reg v (r : sys) : sys := {| actors := actors r; handles := handles r; ops := ops r; now := now r; joins := joins r; reg := v |}.
+Definition set_op_k v (r : op) : op := {| op_k := v; op_a := op_a r; op_imm := op_imm r; op_slot := op_slot r; op_done := op_done r; op_w := op_w r; op_htx := op_htx r; op_hftx := op_hftx r; op_timer := op_timer r; op_reg := op_reg r |}.
+Definition set_op_a v (r : op) : op := {| op_k := op_k r; op_a := v; op_imm := op_imm r; op_slot := op_slot r; op_done := op_done r; op_w := op_w r; op_htx := op_htx r; op_hftx := op_hftx r; op_timer := op_timer r; op_reg := op_reg r |}.
+Definition set_op_imm v (r : op) : op := {| op_k := op_k r; op_a := op_a r; op_imm := v; op_slot := op_slot r; op_done := op_done r; op_w := op_w r; op_htx := op_htx r; op_hftx := op_hftx r; op_timer := op_timer r; op_reg := op_reg r |}.
+Definition set_op_slot v (r : op) : op := {| op_k := op_k r; op_a := op_a r; op_imm := op_imm r; op_slot := v; op_done := op_done r; op_w := op_w r; op_htx := op_htx r; op_hftx := op_hftx r; op_timer := op_timer r; op_reg := op_reg r |}.
+Definition set_op_done v (r : op) : op := {| op_k := op_k r; op_a := op_a r; op_imm := op_imm r; op_slot := op_slot r; op_done := v; op_w := op_w r; op_htx := op_htx r; op_hftx := op_hftx r; op_timer := op_timer r; op_reg := op_reg r |}.
+Definition set_op_w v (r : op) : op := {| op_k := op_k r; op_a := op_a r; op_imm := op_imm r; op_slot := op_slot r; op_done := op_done r; op_w := v; op_htx := op_htx r; op_hftx := op_hftx r; op_timer := op_timer r; op_reg := op_reg r |}.
+Definition set_op_htx v (r : op) : op := {| op_k := op_k r; op_a := op_a r; op_imm := op_imm r; op_slot := op_slot r; op_done := op_done r; op_w := op_w r; op_htx := v; op_hftx := op_hftx r; op_timer := op_timer r; op_reg := op_reg r |}.
+Definition set_op_hftx v (r : op) : op := {| op_k := op_k r; op_a := op_a r; op_imm := op_imm r; op_slot := op_slot r; op_done := op_done r; op_w := op_w r; op_htx := op_htx r; op_hftx := v; op_timer := op_timer r; op_reg := op_reg r |}.
+Definition set_op_timer v (r : op) : op := {| op_k := op_k r; op_a := op_a r; op_imm := op_imm r; op_slot := op_slot r; op_done := op_done r; op_w := op_w r; op_htx := op_htx r; op_hftx := op_hftx r; op_timer := v; op_reg := op_reg r |}.
+Definition set_op_reg v (r : op) : op := {| op_k := op_k r; op_a := op_a r; op_imm := op_imm r; op_slot := op_slot r; op_done := op_done r; op_w := op_w r; op_htx := op_htx r; op_hftx := op_hftx r; op_timer := op_timer r; op_reg := v |}.
+Definition set_actors v (r : sys) : sys := {| actors := v; handles := handles r; ops := ops r; now := now r; joins := joins r; reg := reg r; rlock := rlock r; rpend := rpend r |}.
+Definition set_handles v (r : sys) : sys := {| actors := actors r; handles := v; ops := ops r; now := now r; joins := joins r; reg := reg r; rlock := rlock r; rpend := rpend r |}.
+Definition set_ops v (r : sys) : sys := {| actors := actors r; handles := handles r; ops := v; now := now r; joins := joins r; reg := reg r; rlock := rlock r; rpend := rpend r |}.
+Definition set_now v (r : sys) : sys := {| actors := actors r; handles := handles r; ops := ops r; now := v; joins := joins r; reg := reg r; rlock := rlock r; rpend := rpend r |}.
+Definition set_joins v (r : sys) : sys := {| actors := actors r; handles := handles r; ops := ops r; now := now r; joins := v; reg := reg r; rlock := rlock r; rpend := rpend r |}.
+Definition set_reg v (r : sys) : sys := {| actors := actors r; handles := handles r; ops := ops r; now := now r; joins := joins r; reg := v; rlock := rlock r; rpend := rpend r |}.
+Definition set_rlock v (r : sys) : sys := {| actors := actors r; handles := handles r; ops := ops r; now := now r; joins := joins r; reg := reg r; rlock := v; rpend := rpend r |}.
+Definition set_rpend v (r : sys) : sys := {| actors := actors r; handles := handles r; ops := ops r; now := now r; joins := joins r; reg := reg r; rlock := rlock r; rpend := v |}.
 
 Notation a_queue x := (m_queue (a_mb x)).
 Notation a_parked x := (m_parked (a_mb x)).
@@ -138,7 +144,8 @@ Definition del {A} (m : map A) (k : nat) : map A :=
   fun k' => if Nat.eqb k' k then None else m k'.
 
 Definition init : sys :=
-  {| actors := empty; handles := empty; ops := empty; now := 0; joins := empty; reg := empty |}.
+  {| actors := empty; handles := empty; ops := empty; now := 0; joins := empty; reg := empty;
+     rlock := false; rpend := 0 |}.
 
 Definition get_actor (s : sys) (a : aid) (why : nat) : res actor :=
   match actors s a with Some x => Acc x | None => Rej why end.
@@ -247,7 +254,7 @@ Definition abort_timers (x : actor) : actor := set_a_timers (List.map abort_time
 
 Definition new_op (k : okind) (a : aid) : op :=
   {| op_k := k; op_a := a; op_imm := None; op_slot := SNone; op_done := false; op_w := false;
-     op_htx := 0; op_hftx := 0; op_timer := None |}.
+     op_htx := 0; op_hftx := 0; op_timer := None; op_reg := None |}.
 
 (** * One submission into actor [a]'s mailbox.
     [weak]: goes through a weak handle and needs the upgrade first.
@@ -275,6 +282,7 @@ Definition ret_expect (p : op) (x : actor) (o : oid) : option rval :=
   | None =>
       if op_w p && parked_op x o then None else
       match op_k p with
+      | XReg => None
       | XSend | XForce | XStop | XRestart | XTick | XCtl | XBcast | XCopy | XOther => Some ROk
       | XCall =>
           match op_slot p with
@@ -337,16 +345,100 @@ Definition cbk_eqb (a b : cbk) : bool :=
   | _, _ => false
   end.
 
+(** * The service registry (src/actor/service.rs)
+
+    One process-wide map from service type to the registered address, behind an async RwLock.
+    Every operation does its whole check-then-act under the lock in one step of its task, so it
+    takes effect at its return; the one exception is a lookup that spawns, which (in debug
+    builds) keeps the write lock while it pings the new instance. The registry's entry is a
+    strong address. *)
+Definition running (s : sys) (a : aid) : bool :=
+  match actors s a with
+  | Some x => match a_notif x with NArmed => true | _ => false end
+  | None => false
+  end.
+Definition live_entry (s : sys) (ty : nat) : option aid :=
+  match reg s ty with
+  | Some a => if running s a then Some a else None
+  | None => None
+  end.
+Definition adj_refs (s : sys) (a : aid) (add : bool) : res sys :=
+  x <- get_actor s a 3310 ;;
+  if add then Acc (put_actor s a (add_refs 1 1 x))
+  else
+    check (1 <=? a_tx x) && (1 <=? a_ftx x) else 3311 ;;
+    Acc (put_actor s a (sub_refs 1 1 x)).
+Definition release_entry (s : sys) (ty : nat) : res sys :=
+  match reg s ty with Some old => adj_refs s old false | None => Acc s end.
+
+Definition reg_ret (s : sys) (o : oid) (p : op) (k : regk) (ty : nat) (r : rval) : res sys :=
+  check negb (op_done p) else 3320 ;;
+  let s0 := set_rpend (pred (rpend s)) (put_op s o (set_op_done true p)) in
+  match k with
+  | RgFrom | RgSetup =>
+      let expect := match k with RgFrom => RInst (reg s ty) | _ => ROk end in
+      if rlock s then
+        (* only the lookup that spawned can come back while the lock is held *)
+        check rval_eqb r expect else 3321 ;;
+        Acc (set_rlock false s0)
+      else
+        check (match live_entry s ty with Some _ => true | None => false end) else 3322 ;;
+        check rval_eqb r expect else 3323 ;;
+        Acc s0
+  | RgRegister =>
+      check negb (rlock s) else 3324 ;;
+      match live_entry s ty with
+      | Some _ => check rval_eqb r (RErr EStillRunning) else 3325 ;; Acc s0
+      | None =>
+          check rval_eqb r (RInst (reg s ty)) else 3326 ;;
+          s1 <- adj_refs s0 (op_a p) true ;;
+          s2 <- release_entry s1 ty ;;
+          Acc (set_reg (upd (reg s2) ty (op_a p)) s2)
+      end
+  | RgReplace =>
+      check negb (rlock s) else 3327 ;;
+      check rval_eqb r (RInst (reg s ty)) else 3328 ;;
+      s1 <- adj_refs s0 (op_a p) true ;;
+      s2 <- release_entry s1 ty ;;
+      Acc (set_reg (upd (reg s2) ty (op_a p)) s2)
+  | RgUnregister =>
+      check negb (rlock s) else 3329 ;;
+      check rval_eqb r (RInst (reg s ty)) else 3330 ;;
+      s1 <- release_entry s0 ty ;;
+      Acc (set_reg (del (reg s1) ty) s1)
+  | RgTryFrom =>
+      if rlock s || (1 <? rpend s) then
+        (* the lock is contended: try_read may fail *)
+        check rval_eqb r (RInst None) || rval_eqb r (RInst (live_entry s ty)) else 3331 ;;
+        Acc s0
+      else
+        check rval_eqb r (RInst (live_entry s ty)) else 3332 ;;
+        Acc s0
+  | RgAlready =>
+      check negb (rlock s) else 3333 ;;
+      check rval_eqb r (ROptBool (match reg s ty with None => None | Some a => Some (running s a) end)) else 3334 ;;
+      Acc s0
+  end.
+
+Definition fresh_actor (c : spawn_cfg) (refs : nat) : actor :=
+  {| a_cfg := c; a_mb := mkMbox (sc_bound c) [] [] true; a_phase := PhFresh;
+     a_state := []; a_inc := 0; a_tx := refs; a_ftx := refs; a_inflight := 0;
+     a_notif := NArmed; a_timers := []; a_children := []; a_crashing := false;
+     a_exit := None; a_next := 0; a_sended := false; a_task := THeld; a_bcur := 0;
+     a_sleep := None |}.
+
 Definition step (s : sys) (e : event) : res sys :=
   match e with
   | EvSpawn a c =>
       check (match actors s a with None => true | Some _ => false end) else 101 ;;
-      Acc (put_actor s a
-             {| a_cfg := c; a_mb := mkMbox (sc_bound c) [] [] true; a_phase := PhFresh;
-                a_state := []; a_inc := 0; a_tx := 0; a_ftx := 0; a_inflight := 0;
-                a_notif := NArmed; a_timers := []; a_children := []; a_crashing := false;
-                a_exit := None; a_next := 0; a_sended := false; a_task := THeld; a_bcur := 0;
-                a_sleep := None |})
+      if Nat.eqb (sc_entry c) 6 then
+        (* spawned by a registry lookup: no live instance may be registered; the new address
+           replaces whatever entry there was and the lock stays held for the ping *)
+        check negb (rlock s) else 102 ;;
+        check (match live_entry s (sc_ty c) with None => true | Some _ => false end) else 103 ;;
+        s1 <- release_entry s (sc_ty c) ;;
+        Acc (set_rlock true (set_reg (upd (reg s1) (sc_ty c) a) (put_actor s1 a (fresh_actor c 1))))
+      else Acc (put_actor s a (fresh_actor c 0))
   | EvForeign a =>
       check (match actors s a with None => true | Some _ => false end) else 2001 ;;
       Acc (put_actor s a
@@ -425,6 +517,9 @@ Definition step (s : sys) (e : event) : res sys :=
       end
   | EvRet o r =>
       p <- get_op s o 601 ;;
+      match op_reg p with
+      | Some (k, ty) => reg_ret s o p k ty r
+      | None =>
       check negb (op_done p) else 602 ;;
       x <- get_actor s (op_a p) 603 ;;
       match ret_expect p x o with
@@ -435,6 +530,7 @@ Definition step (s : sys) (e : event) : res sys :=
           let x1 := sub_refs (op_htx p) (op_hftx p) x in
           let x2 := if op_w p then set_a_inflight (pred (a_inflight x1)) x1 else x1 in
           Acc (put_actor (put_op s o (set_op_done true p)) (op_a p) x2)
+      end
       end
   | EvDeq a pk =>
       x <- get_actor s a 701 ;;
@@ -760,7 +856,23 @@ Definition step (s : sys) (e : event) : res sys :=
           check Bool.eqb b (if running then negb stopped else stopped) else 3803 ;;
           Acc s
       end
-  | EvReg _ _ _ _ _ => Acc s
+  | EvReg o c k ty h =>
+      check (match ops s o with None => true | Some _ => false end) else 3301 ;;
+      match k with
+      | RgRegister | RgReplace =>
+          match handles s h with
+          | Some (b, KAddr) =>
+              Acc (set_rpend (S (rpend s)) (put_op s o (set_op_reg (Some (k, ty)) (new_op XReg b))))
+          | _ => Rej 3302
+          end
+      | _ => Acc (set_rpend (S (rpend s)) (put_op s o (set_op_reg (Some (k, ty)) (new_op XReg 0))))
+      end
+  | EvProbe a o =>
+      (* the registry lookup that just spawned [a] pings it while it still holds the lock *)
+      x <- get_actor s a 4301 ;;
+      check (match ops s o with None => true | Some _ => false end) else 4302 ;;
+      check rlock s && a_rx x else 4303 ;;
+      Acc (put_actor (put_op s o (set_op_done true (new_op XPing a))) a (enq false (PTask o) x))
   | EvSubscribe _ _ _ => Acc s
   | EvDeliver _ _ _ => Acc s
   | EvPubCopy _ _ _ => Acc s
